@@ -111,11 +111,45 @@ def duplicated_history_cases(ctx):
     return r["fails"]
 
 
+def big_manifest_case():
+    """a manifest of more than one read chunk (1 MiB): a change BEHIND the first chunk is a change"""
+    import re, time
+    from .. import rt
+    fails = []
+    with rt.tempdir("c05b_") as d:
+        root = os.path.join(d, "card")
+        os.makedirs(root)
+        for i in range(4200):
+            with open(os.path.join(root, "A001C%04d_210101_R1AB_a_rather_long_clip_name_as_cameras_write_them.mov" % i), "w") as f:
+                f.write(str(i))
+        x = rt.run("create", [root, "-h", "md5"], "2026-03-01 12:00:01")
+        mp = [os.path.join(root, "ascmhl", n) for n in os.listdir(os.path.join(root, "ascmhl")) if n.endswith(".mhl")]
+        if x.exit != 0 or len(mp) != 1:
+            return [{"what": f"create of 4200 files exits {x.exit}", "replay": {"case": "big manifest"}}]
+        b = open(mp[0], "rb").read()
+        if len(b) <= 1024 * 1024 + 4096:
+            return []  # (not large enough on this writer: nothing to judge)
+        hits = [m for m in re.finditer(rb">([0-9a-f]{32})<", b) if m.start(1) > 1024 * 1024 + 2048]
+        for m in (hits[0], hits[-1]):
+            pos = m.start(1) + 5
+            b2 = b[:pos] + (b"0" if b[pos:pos + 1] != b"0" else b"1") + b[pos + 1:]
+            st = os.stat(mp[0])
+            open(mp[0], "wb").write(b2)
+            os.utime(mp[0], ns=(st.st_atime_ns, st.st_mtime_ns))
+            for cmd, args in (("verify", [root]), ("info", [root]), ("create", [root, "-h", "md5"])):
+                y = rt.run(cmd, args, "2026-03-01 12:00:09")
+                if y.exit != 31:
+                    fails.append({"what": f"{cmd} after changing one digit at byte {pos} of a {len(b)}-byte manifest (behind the first MiB): exit {y.exit} {y.exc or ''}, expected 31", "replay": {"case": "big manifest", "position": pos, "size": len(b)}})
+            open(mp[0], "wb").write(b)
+            os.utime(mp[0], ns=(st.st_atime_ns, st.st_mtime_ns))
+    return fails
+
+
 def run(ctx):
     n = ctx.scale(260, 4000)
     scs = [build(ctx.seed * 1000721 + i) for i in range(n)]
     combos = {(s["c05"]["edit"], s["c05"]["cmd"], s["c05"]["hist"] != "") for s in scs}
-    return _scn.run_scn(ctx, scs, monitor, extra_fails=duplicated_history_cases(ctx), nontrivial=lambda scs: len({(s.get("c05", {}).get("edit"), s.get("c05", {}).get("cmd"), s.get("c05", {}).get("hist")) for s in scs}),
+    return _scn.run_scn(ctx, scs, monitor, extra_fails=duplicated_history_cases(ctx) + big_manifest_case(), nontrivial=lambda scs: len({(s.get("c05", {}).get("edit"), s.get("c05", {}).get("cmd"), s.get("c05", {}).get("hist")) for s in scs}),
         extra_cov={"edit_x_command_x_nested_combinations": len(combos), "of": len(EDITS) * len(COMMANDS) * 2},
         rule="one evaluation = build a (nested) multi-generation history, damage ONE manifest or chain file (edit kind x position), run ONE history-reading command; distinct = distinct (edit kind, command, history) triples; snapshot of the whole tree before/after",
         assumptions=["a single fault per scenario (so the exit code is determined)", "the edited bytes differ from the original (by construction), so their SHA-512/C4 differs (observed: the tool reports 31)"])
